@@ -193,9 +193,19 @@ impl Language for Go {
 
         writeln!(
             w,
-            "type {} {}\n",
+            "type {}{} {}\n",
             self.acronyms_to_uppercase(&ty.id.renamed),
-            self.format_type(&ty.r#type, &[])
+            (!ty.generic_types.is_empty())
+                .then(|| format!(
+                    "[{}]",
+                    ty.generic_types
+                        .iter()
+                        .map(|ty| format!("{} any", ty))
+                        .collect::<Vec<String>>()
+                        .join(", ")
+                ))
+                .unwrap_or_default(),
+            self.format_type(&ty.r#type, ty.generic_types.as_slice())
                 .map_err(|e| std::io::Error::new(std::io::ErrorKind::Other, e))?
         )?;
 
